@@ -6,6 +6,7 @@
 // dispatch_data_apply presents exactly the requested regions to transform.c.
 // Output per case:   "B <n>" (case n begun; lets the driver name the case when a sanitizer aborts the process), then
 //     "N"                      dispatch_data_create_with_transform returned NULL
+//     "S in=.. out=.. back=.." for "R ..." lines (round trip on the returned object; size:hash:region sizes or N)
 //     "D <size> <hex|->"       result size as reported by dispatch_data_get_size and its bytes
 //                              ("-" when empty; "!" when the size is not believable (> 2^20) and is not touched)
 #include <dispatch/dispatch.h>
@@ -41,24 +42,64 @@ static int hexv(int c) {
 	return -1;
 }
 
+static unsigned long long fnv(unsigned long long h, const unsigned char *p, size_t n) {
+	for (size_t i = 0; i < n; i++) { h ^= p[i]; h *= 1099511628211ULL; }
+	return h;
+}
+
+// hash of the bytes of an object, region by region (no flattening: objects of 100 MB and more stay as they are)
+static unsigned long long data_hash(dispatch_data_t d) {
+	__block unsigned long long h = 1469598103934665603ULL;
+	dispatch_data_apply(d, ^bool(dispatch_data_t r, size_t off, const void *b, size_t s) {
+		(void)r; (void)off; h = fnv(h, b, s); return true; });
+	return h;
+}
+
+static void summary(const char *tag, dispatch_data_t d) {
+	if (!d) { printf(" %s=N", tag); return; }
+	printf(" %s=%zu:%016llx:", tag, dispatch_data_get_size(d), data_hash(d));
+	__block int k = 0;
+	dispatch_data_apply(d, ^bool(dispatch_data_t r, size_t off, const void *b, size_t s) {
+		(void)r; (void)off; (void)b; if (k < 6) printf("%s%zu", k ? "/" : "", s); k++; return true; });
+	printf("/n%d", k);
+}
+
 int main(void) {
 	size_t cap = 1 << 22;
 	char *line = malloc(cap);
 	unsigned long n = 0;
 	while (fgets(line, (int)cap, stdin)) {
-		int fi, fo, pos = 0;
-		if (sscanf(line, "%d %d %n", &fi, &fo, &pos) < 2) continue;
+		int fi, fo, pos = 0, rt = 0;
+		if (line[0] == 'R') {
+			// "R <in> <out> regions": transform, then apply the inverse pair to THE RETURNED OBJECT; only sizes,
+			// region sizes and hashes are printed (used for regions of tens of megabytes)
+			rt = 1;
+			if (sscanf(line + 1, "%d %d %n", &fi, &fo, &pos) < 2) continue;
+			pos += 1;
+		} else if (sscanf(line, "%d %d %n", &fi, &fo, &pos) < 2) continue;
 		printf("B %lu\n", n++);
 		fflush(stdout);
 		dispatch_data_t data = dispatch_data_empty;
 		char *p = line + pos;
-		while (*p && *p != '\n' && *p != '-') {
-			size_t len = 0;
+		while (*p && *p != '\n' && *p != '-' && *p != '\r') {
+			// region := <hex prefix> [ "*" <count> ":" <hex pattern> ]   (prefix, then the pattern count times)
+			size_t plen = 0, len = 0, rep = 0;
 			char *q = p;
-			while (hexv(q[0]) >= 0 && hexv(q[1]) >= 0) { q += 2; len++; }
+			while (hexv(q[0]) >= 0 && hexv(q[1]) >= 0) { q += 2; plen++; }
+			char *pat = NULL;
+			if (*q == '*') {
+				rep = strtoull(q + 1, &q, 10);
+				if (*q == ':') q++;
+				pat = q;
+				while (hexv(q[0]) >= 0 && hexv(q[1]) >= 0) { q += 2; len++; }
+			}
 			// exact-size heap copy: a sanitizer sees every access past a region
-			unsigned char *buf = malloc(len ? len : 1);
-			for (size_t i = 0; i < len; i++) buf[i] = (unsigned char)(hexv(p[2 * i]) * 16 + hexv(p[2 * i + 1]));
+			size_t total = plen + len * rep;
+			unsigned char *buf = malloc(total ? total : 1);
+			for (size_t i = 0; i < plen; i++) buf[i] = (unsigned char)(hexv(p[2 * i]) * 16 + hexv(p[2 * i + 1]));
+			for (size_t i = 0; i < len; i++) buf[plen + i] = (unsigned char)(hexv(pat[2 * i]) * 16 + hexv(pat[2 * i + 1]));
+			for (size_t k = 1; k < rep; k++) memcpy(buf + plen + k * len, buf + plen, len);
+			len = total;
 			dispatch_data_t leaf = dispatch_data_create(buf, len, NULL, DISPATCH_DATA_DESTRUCTOR_FREE);
 			dispatch_data_t cat = dispatch_data_create_concat(data, leaf);
 			dispatch_release(leaf);
@@ -68,6 +109,21 @@ int main(void) {
 			if (*p == ',') p++;
 		}
 		dispatch_data_t res = dispatch_data_create_with_transform(data, fmt(fi), fmt(fo));
+		if (rt) {
+			printf("S");
+			summary("in", data);
+			summary("out", res);
+			if (res) {
+				dispatch_data_t back = dispatch_data_create_with_transform(res, fmt(fo), fmt(fi));
+				summary("back", back);
+				if (back && back != res) dispatch_release(back);
+				if (res != data) dispatch_release(res);
+			}
+			printf("\n");
+			dispatch_release(data);
+			fflush(stdout);
+			continue;
+		}
 		if (!res) {
 			printf("N\n");
 		} else {
